@@ -27,10 +27,12 @@ Inductive jx :=
 | JScan (len : nat) (body : jx) (rest : jx)
 | JOther (body : jx) (rest : jx)          (* higher-order primitive Seed does not interpret:
                                              while_loop / fori_loop / nested jit / custom_jvp *)
-| JGrad (body : jx) (rest : jx).          (* jax.grad / jvp / value_and_grad of a sub-function: JAX applies
-                                             the JVP rule of every site in [body] at trace time, which
-                                             inlines the staged keyless sampler (key drawn from the global
-                                             counter): no sample primitive is left in the Jaxpr *)
+| JGrad (body : jx) (rest : jx).          (* jax.grad / jvp / value_and_grad of a sub-function inside a staged
+                                             program: JAX applies the JVP rule of every site in [body] at trace
+                                             time; the rule raises the site's lowering error when its primals
+                                             are tracers (it used to inline the staged keyless sampler and its
+                                             baked-in key: fix F25), so for staging a differentiated block
+                                             behaves like a construct that is not interpreted *)
 
 (** scan iterations: iteration i runs the (seeded) body with key fold_in(sub, i) *)
 Fixpoint iters (f : key -> list bool -> list key * list bool) (sub : key) (todo i : nat) (cs : list bool)
@@ -80,7 +82,7 @@ Fixpoint has_sample (p : jx) : bool :=
   | JCond b0 b1 rest => has_sample b0 || has_sample b1 || has_sample rest
   | JScan _ body rest => has_sample body || has_sample rest
   | JOther body rest => has_sample body || has_sample rest
-  | JGrad body rest => has_sample rest
+  | JGrad body rest => has_sample body || has_sample rest
   end.
 
 (** Does the source program contain a sampling site at all (also under grad)? *)
@@ -121,7 +123,7 @@ Fixpoint unseeded (p : jx) : bool :=
   | JCond b0 b1 rest => unseeded b0 || unseeded b1 || unseeded rest
   | JScan _ body rest => unseeded body || unseeded rest
   | JOther body rest => has_sample body || unseeded rest
-  | JGrad body rest => unseeded rest
+  | JGrad body rest => has_sample body || unseeded rest
   end.
 
 (** The process-global key counter: staging a function traces every keyless
